@@ -1115,7 +1115,7 @@ fn main() {
     drop(cases);
 
     // random: up to 4 parameters over the full lattices
-    let n_random = env.budget(20_000, 4_000_000);
+    let n_random = env.budget(20_000, 12_000_000);
     report.count_n("bind.cases.random", n_random as u64);
     let mut left = n_random;
     while left > 0 {
